@@ -56,6 +56,9 @@ def one_program(item):
         for mname, args in modes:
             wd = os.path.join(base, mname)
             code, so, se = run_cli(args, src, wd)
+            if code == 'timeout':
+                # a loaded machine is not a hang: only a run that does not finish within a much longer limit counts
+                code, so, se = run_cli(args, src, wd, timeout=900)
             tb = 'Traceback (most recent call last)' in se or 'Traceback (most recent call last)' in so
             out['runs'].append({'mode': mname, 'exit': code, 'traceback': tb, 'tail': (se or so)[-600:] if (tb or code not in (0,)) else ''})
             if item.get('c18'):
